@@ -302,12 +302,14 @@ func judge(l *layout, held [][]string, op string, groups []tsm1.CompactionGroup)
 			gaps = append(gaps, fmt.Sprintf("g%d(%s)", k+1, kind))
 		}
 		if len(gaps) > 0 {
-			var ks []string
-			for k := range kinds {
-				ks = append(ks, k)
+			// one class per cause, the strongest cause present wins: in-use > oversized > other
+			k := "other"
+			if kinds["in-use"] {
+				k = "in-use"
+			} else if kinds["oversized"] {
+				k = "oversized"
 			}
-			sort.Strings(ks)
-			add("non-contiguous-group/"+opk+"/skipped="+strings.Join(ks, "+"),
+			add("non-contiguous-group/"+opk+"/skipped="+k,
 				fmt.Sprintf("%s returned group {%s} which leaves out live generation(s) %s lying between its members: compacting it moves the older data behind the skipped generation(s)", op, gs, strings.Join(gaps, ",")))
 		}
 		for i := 1; i < len(g); i++ {
@@ -750,7 +752,8 @@ func schedHarness(sc SchedCase, out *schedResult) *vrt.Harness {
 							if otherBusy && strings.HasSuffix(v.sig, "skipped=other") {
 								// the skipped generation is free in the harness' books only because the other thread acquired or
 								// released it while this call was running (or is still in the middle of doing so)
-								v.sig = strings.TrimSuffix(v.sig, "other") + "in-flight"
+								v.sig = strings.TrimSuffix(v.sig, "other") + "in-use"
+								v.msg = strings.ReplaceAll(v.msg, "(other)", "(in use while the call was running)")
 							}
 							v.msg = pr.Name + ": " + v.msg
 							out.verdicts = append(out.verdicts, v)
@@ -1281,6 +1284,21 @@ func outcomeClass(o Op, groups []tsm1.CompactionGroup, nheld int) string {
 	return name + ":" + n + h
 }
 
+const quickBudgetS, thoroughBudgetS = 40, 780
+
+func budgetS(thorough bool) int {
+	if v := os.Getenv("VERIF_BUDGET_S"); v != "" {
+		var n int
+		if _, err := fmt.Sscanf(v, "%d", &n); err == nil && n > 0 {
+			return n
+		}
+	}
+	if thorough {
+		return thoroughBudgetS
+	}
+	return quickBudgetS
+}
+
 func TestCheck(t *testing.T) {
 	vlib.Main(t, &vlib.Check{
 		ID: "C05", Level: "model_checking",
@@ -1291,14 +1309,42 @@ func TestCheck(t *testing.T) {
 			"schedules: sequentially consistent interleavings at the granularity of DefaultPlanner.mu operations",
 			"generation attributes beyond the listed values (e.g. sizes between 64MB and 1.5GB) are not enumerated; the planner compares sizes only with MaxTSMFileSize and with twice the neighbour's size",
 		},
-		QuickBudgetS: 40, ThoroughBudgetS: 780, WorkerEnv: []string{"GOMAXPROCS=1"},
+		QuickBudgetS: quickBudgetS, ThoroughBudgetS: thoroughBudgetS, WorkerEnv: []string{"GOMAXPROCS=1"},
 		Run: func(c *vlib.Ctx) {
-			var idx int64
+			var idx, widx int64
+			budget := time.Duration(budgetS(c.Thorough())) * time.Second
+			part1Deadline := time.Now().Add(budget / 2) // part 1 may use half of the budget, the schedules get the rest
 			maxDepth, nstores := 0, 0
 			var evals, nontriv int64
 			var ocount [10][3][2]int64
 			vioSeen := map[string]bool{}
 			only := os.Getenv("C05_ONLY_PART") // debugging aid; never set by the registered commands
+			// ---- part 3 (cheap and the most telling: run it first)
+			for _, lv := range [][]int{{4, 3, 3, 4}, {4, 2, 2, 4}} {
+				if only != "" && only != "3" {
+					break
+				}
+				widx++
+				if !c.Mine(widx) {
+					continue
+				}
+				wc := WitnessCase{Kind: "witness", Levels: lv}
+				r := runWitness(wc)
+				c.Eval(1)
+				if r.harness != "" {
+					c.HarnessError("witness " + fmt.Sprint(lv) + ": " + r.harness)
+					continue
+				}
+				c.Outcome(r.outcome)
+				for _, v := range r.verdicts {
+					sig := v.sig
+					if strings.HasPrefix(sig, "e2e-stale-read/") {
+						sig = "e2e-stale-read/Engine.PlanCompactions+compaction-of-non-contiguous-group"
+					}
+					c.Violation(sig, fmt.Sprintf("real engine, generation levels %v: %s", lv, v.msg), wc)
+				}
+			}
+
 			// ---- part 1
 			forEachStore(c.Thorough(), func(s Store) bool {
 				if only != "" && only != "1" {
@@ -1309,11 +1355,11 @@ func TestCheck(t *testing.T) {
 					return true
 				}
 				nstores++
-				c.Extra("part1_stores", 1)
-				if nstores%64 == 0 && c.Expired() {
+				if nstores%64 == 0 && (c.Expired() || time.Now().After(part1Deadline)) {
 					c.Cap("budget expired during part 1 (store families)")
 					return false
 				}
+				c.Extra("part1_stores", 1)
 				st := bfs(s, func(nd *node, oi int, o Op, groups []tsm1.CompactionGroup, vs []verdict) {
 					evals++
 					if len(groups) > 0 {
@@ -1372,33 +1418,8 @@ func TestCheck(t *testing.T) {
 			c.Note("part1_store_families", "singles(1–3 files) + "+familyText(c.Thorough()))
 			c.Extra(fmt.Sprintf("part1_bfs_depth_reached_%02d", maxDepth), 1)
 
-			// ---- part 3 (cheap, run it before the budget-hungry schedules)
-			for _, lv := range [][]int{{4, 3, 3, 4}, {4, 2, 2, 4}} {
-				if only != "" && only != "3" {
-					break
-				}
-				idx++
-				if !c.Mine(idx) {
-					continue
-				}
-				wc := WitnessCase{Kind: "witness", Levels: lv}
-				r := runWitness(wc)
-				c.Eval(1)
-				if r.harness != "" {
-					c.HarnessError("witness " + fmt.Sprint(lv) + ": " + r.harness)
-					continue
-				}
-				c.Outcome(r.outcome)
-				for _, v := range r.verdicts {
-					sig := v.sig
-					if strings.HasPrefix(sig, "e2e-stale-read/") {
-						sig = "e2e-stale-read/Engine.PlanCompactions+compaction-of-non-contiguous-group"
-					}
-					c.Violation(sig, fmt.Sprintf("real engine, generation levels %v: %s", lv, v.msg), wc)
-				}
-			}
-
 			// ---- part 2
+			idx = 0
 			forEachSchedStore(c.Thorough(), func(s Store) bool {
 				// quick: ≤2 preemptions for stores of ≤2 generations, ≤1 for 3; thorough: ≤2 for ≤3 generations, ≤1 for 4
 				bound := 2
